@@ -31,7 +31,7 @@ def impl_eval(case):
         facts = [core.fact_arg(f, names, fm) for f, fm in zip(case["facts"], forms)] or None
         with warnings.catch_warnings():
             warnings.simplefilter("ignore")
-            ocf = PreOCF.init_system_z(bb, facts=facts, extended=case["extended"])
+            ocf = PreOCF.init_system_z(bb, signature=(list(case["objsig"]) if case.get("objsig") else None), facts=facts, extended=case["extended"])
     except ValueError as e:
         out["refused"] = str(e)[:300]
         return out
@@ -72,6 +72,15 @@ def impl_eval(case):
     return out
 
 
+def proj(case, w):
+    """world string over the object's explicit signature -> world string over the base's signature (names order)"""
+    sg = case.get("objsig")
+    if not sg:
+        return w
+    names = core.names_for(case["n"])
+    return "".join(w[sg.index(nm)] for nm in names)
+
+
 def driver_line(case):
     return (f"zobj {case['n']} {1 if case['mode_ext'] else 0} {core.conds_line(answers.keyed(case['base']))} "
             f"{len(case['facts'])} " + " ".join(core.f_prefix(f) for f in case["facts"]) + " " + core.conds_line(answers.keyed(case["queries"])))
@@ -102,6 +111,14 @@ def compare(case, impl, resp):
     want = dict(zip(worlds, [int(x) for x in ranks_s.split(" ")]))
     for op, got in zip(case["ops"], impl["calls"]):
         if op[0] == "all":
+            if case.get("objsig"):
+                gotp = {w: r for w, r in got.items()}
+                bad = [w for w in gotp if gotp[w] != want[proj(case, w)]] + ([None] if len(gotp) != 2 ** len(case["objsig"]) else [])
+                if bad:
+                    fail("compute_all_ranks returns a rank different from the Z-rank", {bad[0]: gotp.get(bad[0])},
+                         {bad[0]: want.get(proj(case, bad[0])) if bad[0] else "one rank per world of the signature"}, "wrong rank")
+                    break
+                continue
             if got != want:
                 bad = [w for w in worlds if got.get(w) != want[w]][0]
                 fail("compute_all_ranks returns a rank different from the Z-rank", {bad: got.get(bad)}, {bad: want[bad]}, "wrong rank")
@@ -111,10 +128,14 @@ def compare(case, impl, resp):
                 fail("conditional_acceptance asked on a partially computed object differs from rank comparison",
                      {"query": case["queries"][op[1]], "got": got}, acc_s[op[1]] == "1", "wrong acceptance")
                 break
-        elif got != want[op[1]]:
-            fail(f"rank_world ({op[0]}) returns a rank different from the Z-rank", {op[1]: got}, {op[1]: want[op[1]]}, "wrong rank")
+        elif got != want[proj(case, op[1])]:
+            fail(f"rank_world ({op[0]}) returns a rank different from the Z-rank", {op[1]: got}, {op[1]: want[proj(case, op[1])]}, "wrong rank")
             break
-    if impl["final"] != want and not fails:
+    if case.get("objsig"):
+        badf = [w for w, r in impl["final"].items() if r != want[proj(case, w)]]
+        if badf and not fails:
+            fail("final ranks differ from the Z-rank", {badf[0]: impl["final"][badf[0]]}, {badf[0]: want[proj(case, badf[0])]}, "wrong rank")
+    elif impl["final"] != want and not fails:
         bad = [w for w in worlds if impl["final"].get(w) != want[w]][0]
         fail("final ranks differ from the Z-rank", {bad: impl["final"].get(bad)}, {bad: want[bad]}, "wrong rank")
     for i, (g, w) in enumerate(zip(impl["accept"], acc_s)):
@@ -188,6 +209,14 @@ def run(ctx):
                 keys = rng.sample(range(0, 2 * k + 2), k)
             c["base"] = [[kk, b, a] for kk, (_, b, a) in zip(keys, c["base"])]
         worlds = lean_order_worlds(n)
+        objsig = None
+        if rng.random() < 0.25 and n <= 5:
+            # the object lives over an explicit signature: the base's atoms reordered, sometimes with an extra atom
+            objsig = list(core.names_for(n))
+            rng.shuffle(objsig)
+            if rng.random() < 0.4:
+                objsig.insert(rng.randint(0, len(objsig)), "zz")
+            worlds = lean_order_worlds(len(objsig))
         ops = []
         for _ in range(rng.randint(2, 2 ** n + 2)):
             t = rng.random()
@@ -199,12 +228,14 @@ def run(ctx):
                 ops.append(["force", rng.choice(worlds)])
             else:
                 ops.append(["lazy", rng.choice(worlds)])
-        cases.append({"n": n, "base": c["base"], "facts": facts, "fact_forms": [rng.choice(["pysmt", "text", "textmin"]) for _ in facts], "extended": extended, "mode_ext": mode_ext, "ops": ops, "queries": c["queries"]})
+        cases.append({"n": n, "base": c["base"], "facts": facts, "fact_forms": [rng.choice(["pysmt", "text", "textmin"]) for _ in facts], "extended": extended, "mode_ext": mode_ext, "ops": ops, "queries": c["queries"], "objsig": objsig})
     impls = pmap(impl_eval, cases, ctx.procs)
     resps = core.driver_batch([driver_line(c) for c in cases])
     for c, impl, resp in zip(cases, impls, resps):
         ctx.evaluations += len(c["ops"]) + len(c["queries"])
         ctx.bump(f"facts={len(c['facts'])}")
+        if c.get("objsig"):
+            ctx.bump("explicit_signature=" + ("extended" if len(c["objsig"]) > c["n"] else "reordered"))
         for fm in c.get("fact_forms") or []:
             ctx.bump(f"fact_form={fm}")
         ctx.bump(f"mode={'extended' if c['mode_ext'] else 'strict'}")
